@@ -172,6 +172,7 @@ pub fn oracle(c: &Case) -> Verdict {
             Some(dc) => b.prefer_datacenter(dc.clone()),
             None => b,
         }),
+        ..Default::default()
     };
     if let Some(dc) = &prefer {
         if !specs.iter().any(|s| s.dc == *dc && !s.tokens.is_empty()) {
